@@ -3,7 +3,7 @@
    `decompress` stands for the negotiated decompressor run to completion (an oracle: C20's domain);
    every theorem holds for every such function. *)
 From Coq Require Import Lia.
-From V Require Import C14_Spec C14_Proofs C14_Alias C14_HttpProofs.
+From V Require Import C14_Spec C14_Proofs C14_Alias C14_HttpProofs C14_ServerProofs.
 Open Scope N_scope.
 
 (* Chunking never matters (raw dataTracer + builder): for EVERY configuration, EVERY list of chunks
@@ -200,6 +200,68 @@ Theorem client_sees_same_response : forall transport,
 Proof. exact client_sees_same_response_proof. Qed.
 Print Assumptions client_sees_same_response.
 
+(* The end-of-stream content is EXACT for every length: whatever the payload's length (up to what the
+   uint32 prefix can declare) and however the bytes arrive, the content event carries the whole
+   payload - or the whole output of the decompressor run on the whole payload when the compressed bit
+   is set and an encoding was negotiated - never a part of it.  (Seeded change C13-17 keeps only the
+   first 64 KiB of the capture.) *)
+Theorem end_stream_content_exact : forall decompress c, c_stream c = true -> forall msgs fl p chunks,
+  c_req c = false -> Forall fits msgs -> fits (fl, p) -> p <> [] -> is_end_stream fl = true ->
+  concat chunks = encode_all msgs ++ encode fl p ->
+  raw_events decompress c chunks =
+  number false 0 (flat_map (msg_events decompress c) msgs) ++
+  EvData false (N.of_nat (length msgs)) (Some (mk_env fl (blen p))) (blen p) ::
+  match (if is_compressed fl && c_dec c then decompress p else Some p) with
+  | Some (x :: r) => [EvEos (x :: r)]
+  | _ => []
+  end ++ [EvEnd false ENil].
+Proof. exact end_stream_content_exact_proof. Qed.
+Print Assumptions end_stream_content_exact.
+
+(* The reference server's handler chain (C14_Server: createServer's layers, outermost first; rawResponder
+   REPLACES the response of the handler inside it by the raw response a test case asks for).  With the
+   order createServer installs - tracing outside rawResponder - what the tracing layer records is what
+   leaves the server, for EVERY response: raw or ordinary, reference mode or not, HTTP/1.1 or h2c, whatever
+   the handler inside produced.  (Seeded change C14-20 puts the tracing layer inside rawResponder.) *)
+Theorem trace_sees_wire_bytes : forall reference h2c raw inner,
+  snd (wire_and_seen raw (create_server_chain reference true h2c) inner) =
+  Some (fst (wire_and_seen raw (create_server_chain reference true h2c) inner)).
+Proof. exact trace_sees_wire_bytes_proof. Qed.
+Print Assumptions trace_sees_wire_bytes.
+
+(* ... and for every chain in which, going inward from the wire, a tracing layer comes before any rawResponder *)
+Theorem tracing_outside_sees_wire : forall chain raw inner,
+  traced_outside_raw chain = true ->
+  snd (wire_and_seen raw chain inner) = Some (fst (wire_and_seen raw chain inner)).
+Proof. exact tracing_outside_sees_wire_proof. Qed.
+Print Assumptions tracing_outside_sees_wire.
+
+(* the raw response a test case asks for is the response on the wire, whatever the handler inside wrote *)
+Theorem raw_response_reaches_wire : forall traced h2c r inner,
+  fst (wire_and_seen (Some r) (create_server_chain true traced h2c) inner) = r.
+Proof. exact raw_response_reaches_wire_proof. Qed.
+Print Assumptions raw_response_reaches_wire.
+
+(* hence: the response events of the server's trace are the declarative parse of the body ON THE WIRE,
+   however the layers inside the tracing layer cut it into Write calls *)
+Theorem server_trace_is_parse_of_wire : forall decompress c reference h2c raw inner seen l,
+  snd (wire_and_seen raw (create_server_chain reference true h2c) inner) = Some seen ->
+  concat (accepted l) = snd seen ->
+  writer_events decompress c (writes l) =
+  expected_events decompress c (snd (fst (wire_and_seen raw (create_server_chain reference true h2c) inner))) ENil.
+Proof. exact server_trace_is_parse_of_wire_proof. Qed.
+Print Assumptions server_trace_is_parse_of_wire.
+
+(* A body WITHOUT bytes (http.NoBody, Content-Length: 0, 204, 304, the answer to HEAD): the application's
+   first Read reports (0, EOF); then, and after any Close calls, the trace holds exactly the one body-end
+   event, and on the response side the trace is finished (handed to the collector: b_live = false).
+   (Seeded change C16-12 does not wrap http.NoBody, so neither happens.) *)
+Theorem empty_body_single_body_end : forall decompress c fl,
+  let s := fst (reader_run decompress c ws_init (RRead [] IoEOF :: closes fl)) in
+  b_events (w_b s) = [EvEnd (c_req c) ENil] /\ b_live (w_b s) = c_req c.
+Proof. exact empty_body_proof. Qed.
+Print Assumptions empty_body_single_body_end.
+
 (* ---- non-vacuity: the hypotheses are inhabited, both sides of the flag rule occur ---- *)
 Definition toy_dec (b : bytes) : option bytes := match b with 90 :: r => Some r | _ => None end.
 Definition resp : cfg := mk_cfg false true true.
@@ -337,3 +399,80 @@ Proof.
   - apply scripted_by_content.
   - apply scripted_frame. assumption.
 Qed.
+
+(* ---- end-stream content beyond 64 KiB: 65537 bytes arriving in three reads, uncompressed and through a
+   decompressor (toy_dec strips a leading 90): the content event carries all of them ---- *)
+(* the recurrence pat_bytes is built by yields the closed form pat_byte at every index (sampled across two wraps) *)
+Example ex_pat_bytes : pat_bytes 700 201 = map (pat_byte 201) (map N.of_nat (seq 0 700)).
+Proof. vm_compute. reflexivity. Qed.
+Definition long_payload : bytes := pat_bytes 65537 7.
+Lemma long_payload_len : blen long_payload = 65537.
+Proof. vm_compute. reflexivity. Qed.
+Lemma long_es_any : forall p decompress i j, blen p = 65537 ->
+  (let body := encode 2 p in
+   raw_events decompress resp [firstn i body; firstn j (skipn i body); skipn j (skipn i body)]) =
+  [EvData false 0 (Some (mk_env 2 65537)) 65537; EvEos p; EvEnd false ENil].
+Proof.
+  intros p decompress i j L. cbv zeta.
+  assert (NE : p <> []) by (intro H; subst p; discriminate L).
+  rewrite (end_stream_content_exact decompress resp eq_refl [] 2 p); try reflexivity; try exact NE.
+  - cbn [flat_map number app length N.of_nat]. rewrite L.
+    destruct p; [congruence|reflexivity].
+  - constructor.
+  - unfold fits. cbn [snd]. rewrite L. reflexivity.
+  - cbn [concat encode_all map app]. rewrite app_nil_r, firstn_skipn, firstn_skipn. reflexivity.
+Qed.
+Example ex_long_end_stream : forall decompress i j,
+  (let body := encode 2 long_payload in
+   raw_events decompress resp [firstn i body; firstn j (skipn i body); skipn j (skipn i body)]) =
+  [EvData false 0 (Some (mk_env 2 65537)) 65537; EvEos long_payload; EvEnd false ENil].
+Proof. intros. apply long_es_any. exact long_payload_len. Qed.
+(* flagged compressed, through a decompressor (toy_dec strips a leading 90) *)
+Lemma long_es_compressed_any : forall p chunks, blen p = 65537 ->
+  concat chunks = encode 3 (90 :: p) ->
+  raw_events toy_dec resp chunks =
+  [EvData false 0 (Some (mk_env 3 65538)) 65538; EvEos p; EvEnd false ENil].
+Proof.
+  intros p chunks L E.
+  assert (L1 : blen (90 :: p) = 65538).
+  { change (blen (90 :: p)) with (N.of_nat (S (length p))). rewrite Nat2N.inj_succ. fold (blen p). rewrite L. reflexivity. }
+  rewrite (end_stream_content_exact toy_dec resp eq_refl [] 3 (90 :: p)); try reflexivity.
+  - cbn [flat_map number app length N.of_nat]. rewrite L1.
+    cbn [is_compressed N.testbit c_dec resp andb toy_dec].
+    destruct p; [discriminate L|reflexivity].
+  - constructor.
+  - unfold fits. cbn [snd]. rewrite L1. reflexivity.
+  - discriminate.
+  - rewrite E. reflexivity.
+Qed.
+Example ex_long_end_stream_compressed : forall chunks,
+  concat chunks = encode 3 (90 :: long_payload) ->
+  raw_events toy_dec resp chunks =
+  [EvData false 0 (Some (mk_env 3 65538)) 65538; EvEos long_payload; EvEnd false ENil].
+Proof. intros. apply long_es_compressed_any; [exact long_payload_len|assumption]. Qed.
+
+(* ---- the handler chain: createServer's order, and the order of seeded change C14-20 ---- *)
+Example ex_chain :
+  create_server_chain true true false = [LCors; LTracing; LRawResponder; LChecks; LBidiTrick; LMux] /\
+  create_server_chain false true true = [LH2c; LCors; LTracing; LTeCheck; LBidiTrick; LMux].
+Proof. split; reflexivity. Qed.
+Definition seeded_chain : list layer := [LCors; LRawResponder; LChecks; LTracing; LBidiTrick; LMux].
+(* a raw response of three messages against the swallowed "use raw response instead" error *)
+Definition raw_demo : sresp := (200, encode 0 (bs "one") ++ encode 0 [] ++ encode 2 (bs "{}")).
+Definition inner_demo : sresp := (200, encode 2 (bs "use raw response instead")).
+Example tracing_inside_raw_refuted :
+  fst (wire_and_seen (Some raw_demo) seeded_chain inner_demo) = raw_demo /\
+  snd (wire_and_seen (Some raw_demo) seeded_chain inner_demo) = Some inner_demo /\
+  inner_demo <> raw_demo /\ traced_outside_raw seeded_chain = false.
+Proof. vm_compute. repeat split; try reflexivity. intro H; discriminate H. Qed.
+(* with createServer's order the same call is traced as it went over the wire; an ordinary call in both orders *)
+Example ex_tracing_outside :
+  wire_and_seen (Some raw_demo) (create_server_chain true true false) inner_demo = (raw_demo, Some raw_demo) /\
+  wire_and_seen None (create_server_chain true true false) inner_demo = (inner_demo, Some inner_demo) /\
+  wire_and_seen None seeded_chain inner_demo = (inner_demo, Some inner_demo).
+Proof. vm_compute. repeat split; reflexivity. Qed.
+(* a response without a body: one body-end event, trace finished; the request side stays open for the response *)
+Example ex_empty_body :
+  reader_events toy_dec resp [RRead [] IoEOF; RClose false] = [EvEnd false ENil] /\
+  reader_events toy_dec (mk_cfg false false false) [RRead [] IoEOF] = [EvEnd false ENil].
+Proof. vm_compute. split; reflexivity. Qed.
